@@ -446,8 +446,32 @@ func (m *Machine) indexAddr(base []value, idx *Term) value {
 	if _, scalar := base[0].(*Term); scalar && n <= 4096 {
 		return &symPtr{base: base, idx: idx}
 	}
+	if sameLenStrings(base) && n <= 256 {
+		return &symPtr{base: base, idx: idx}
+	}
 	i := m.concretize(idx, "index")
 	return &base[i]
+}
+
+func sameLenStrings(base []value) bool {
+	l := -1
+	for _, b := range base {
+		switch s := b.(type) {
+		case string:
+			if l >= 0 && len(s) != l {
+				return false
+			}
+			l = len(s)
+		case symString:
+			if l >= 0 && len(s) != l {
+				return false
+			}
+			l = len(s)
+		default:
+			return false
+		}
+	}
+	return l >= 0
 }
 
 // indexValue returns base[idx] by value.
@@ -472,13 +496,50 @@ func (m *Machine) selectValue(base []value, idx *Term) value {
 	if len(base) == 1 {
 		return base[0]
 	}
+	if sameLenStrings(base) && len(base) <= 256 {
+		l := strLen(base[0])
+		out := make([]*Term, l)
+		for k := 0; k < l; k++ {
+			res := m.strBytes(base[len(base)-1])[k]
+			for i := len(base) - 2; i >= 0; i-- {
+				res = m.tt.Ite(m.tt.Eq(idx, m.intConst(int64(i))), m.strBytes(base[i])[k], res)
+			}
+			out[k] = res
+		}
+		return m.mkString(out)
+	}
 	if _, scalar := base[0].(*Term); !scalar || len(base) > 4096 {
 		i := m.concretize(idx, "index")
 		return base[i]
 	}
-	res := base[len(base)-1].(*Term)
-	for i := len(base) - 2; i >= 0; i-- {
-		res = m.tt.Ite(m.tt.Eq(idx, m.intConst(int64(i))), base[i].(*Term), res)
+	// run-length compressed chain: consecutive equal entries become one range test
+	// (idx is known to be in range, so the last run needs no test)
+	type run struct {
+		end int // exclusive
+		v   *Term
+	}
+	var runs []run
+	for i, b := range base {
+		t := b.(*Term)
+		if n := len(runs); n > 0 && runs[n-1].v == t {
+			runs[n-1].end = i + 1
+		} else {
+			runs = append(runs, run{i + 1, t})
+		}
+	}
+	res := runs[len(runs)-1].v
+	for i := len(runs) - 2; i >= 0; i-- {
+		var c *Term
+		start := 0
+		if i > 0 {
+			start = runs[i-1].end
+		}
+		if runs[i].end-start == 1 && len(runs) == len(base) {
+			c = m.tt.Eq(idx, m.intConst(int64(start)))
+		} else {
+			c = m.tt.Bin(OpULt, idx, m.intConst(int64(runs[i].end)))
+		}
+		res = m.tt.Ite(c, runs[i].v, res)
 	}
 	return res
 }
@@ -517,7 +578,12 @@ func (m *Machine) store(addr, v value) {
 		}
 		*p = copyVal(v)
 	case *symPtr:
-		nv := v.(*Term)
+		nv, ok := v.(*Term)
+		if !ok {
+			i := m.concretize(p.idx, "store index")
+			p.base[i] = copyVal(v)
+			return
+		}
 		for i := range p.base {
 			old := p.base[i].(*Term)
 			p.base[i] = m.tt.Ite(m.tt.Eq(p.idx, m.intConst(int64(i))), nv, old)
